@@ -1,9 +1,12 @@
 //! Verification harness: generates inputs, runs selene (linked from /repo's working tree) on them
 //! and writes Gallina case files that coqc evaluates against the Coq models and specifications.
+mod astdump;
+mod c01;
 mod c06;
 mod c08;
 mod c10;
 mod genfilter;
+mod genlua;
 mod c15;
 mod c16;
 mod cases;
@@ -60,6 +63,7 @@ fn main() {
         "c08" => c08::generate(a.seed, a.n, a.thorough).write(&a.out, a.shards, a.only),
         "c10" => c10::generate(a.seed, a.n, a.thorough).write(&a.out, a.shards, a.only),
         "c15" => c15::generate(a.seed, a.n, a.thorough).write(&a.out, a.shards, a.only),
+        "c01" => c01::generate(a.seed, a.n, a.thorough).write(&a.out, a.shards, a.only),
         "c06" => c06::generate(a.seed, a.n, a.thorough).write(&a.out, a.shards, a.only),
         "c16" => c16::generate(a.seed, a.n, a.thorough).write(&a.out, a.shards, a.only),
         "lint" => lint::run(&a.rest),
